@@ -219,12 +219,12 @@ package cache
 //@   modifies ghost.disk, ghost.foff, ghost.rpos, ghost.hashed
 //@   always   [crashsafe] dataOK(disk, c.fileName(out, "d"), out, size) && sameExcept(disk, old(disk), c.fileName(out, "d"))
 //@   at call io.CopyN#1 assert [bounded] (c.fileName(out, "d") in disk) && len(disk[c.fileName(out, "d")]) <= size
+//@   at call io.(Reader).Read#1 assert [prefix]   size - 1 <= len(disk[c.fileName(out, "d")]) && len(disk[c.fileName(out, "d")]) <= size && (forall i int :: {disk[c.fileName(out, "d")][i]} 0 <= i && i < size - 1 ==> disk[c.fileName(out, "d")][i] == rdata(file)[i]) && get(foff, f) == size - 1
 //@   at call os.(*File).Write#1 assert [hashlen]  (h in hashed) && len(hashed[h]) == size && (forall i int :: {hashed[h][i]} 0 <= i && i < size - 1 ==> hashed[h][i] == rdata(file)[i]) && hashed[h][size-1] == buf[0]
 //@   at call os.(*File).Write#1 assert [agree]    agree32(sha(hashed[h]), out)
 //@   at call os.(*File).Write#1 assert [agree2]   agree32(sha(hashed[h]), sha(rdata(file)))
 //@   at call os.(*File).Write#1 assert [same]     len(hashed[h]) == len(rdata(file)) && hashed[h][size-1] == rdata(file)[size-1]
 //@   at call os.(*File).Write#1 assert [lastbyte] buf[0] == rdata(file)[size-1] && len(buf) == 1
-//@   at call os.(*File).Write#1 assert [prefix]   size - 1 <= len(disk[c.fileName(out, "d")]) && len(disk[c.fileName(out, "d")]) <= size && (forall i int :: {disk[c.fileName(out, "d")][i]} 0 <= i && i < size - 1 ==> disk[c.fileName(out, "d")][i] == rdata(file)[i]) && get(foff, f) == size - 1
 //@   ensures  [stored] result == nil ==> (c.fileName(out, "d") in disk) && len(disk[c.fileName(out, "d")]) == size && sha(disk[c.fileName(out, "d")]) == out
 
 // 32-byte arrays that agree element-wise are equal (the model keeps arrays zero outside bounds)
